@@ -81,6 +81,7 @@ type loopInfo struct {
 type candidate struct {
 	text  string
 	e     Expr
+	frame string // non-empty: automatic frame candidate for this heap (pre-existing objects unchanged)
 	alive bool
 }
 
@@ -143,11 +144,17 @@ type FnCtx struct {
 	requiresTerms []string
 	reqPrefix     int
 	houdiniObs    []*houdiniOb
-	pendingHavoc []string
-	nglobals int
+	pendingHavoc  []string
+	finalized     bool
+	covers        []*Oblig
+	readSnaps     map[string]heapState
+	readSnapOrder []string
+	inAxiom       bool
+	nglobals      int
 }
 
 type fnOpts struct {
+	spec     *specialisation
 	houdini  bool
 	props    []string // properties to tag sweep obligations with
 	noSafety bool
@@ -948,6 +955,9 @@ func (c *FnCtx) translate() {
 	}
 	for _, fv := range fn.FreeVars {
 		c.freshVal(fv)
+		if _, isPtr := types.Unalias(fv.Type()).Underlying().(*types.Pointer); isPtr {
+			c.assume(not(eq(c.vals[fv], "0"))) // a captured variable's cell always exists
+		}
 	}
 	c.classifyAllocs()
 	c.computeLoopWrites()
@@ -986,6 +996,13 @@ func (c *FnCtx) translateBlock(b *ssa.BasicBlock) {
 		li.preHeap = c.cur.clone()
 		// havoc the loop's write set
 		var ws []string
+		if li.writes["*"] {
+			for _, h := range c.heapOrder {
+				if !c.isLocalHeap(h) {
+					li.writes[h] = true
+				}
+			}
+		}
 		for h := range li.writes {
 			ws = append(ws, h)
 		}
